@@ -139,6 +139,8 @@ fn run_handles(driver: DriverType, depth: usize, ch: &mut Chooser, log: &mut Vec
     let mut closes: Vec<CloseSlot> = Vec::new();
     let mut canary: Option<std::fs::File> = None;
     let mut closed_seen = false;
+    // a two-descriptor operation: splice(stream -> pipe); the pipe is created at first use
+    let mut pipe: Option<(std::os::fd::OwnedFd, compio_fs::File)> = None;
     // bytes written by the peer / consumed by completed reads (a cancelled read may also consume one)
     let mut written = 0usize;
     let mut consumed = 0usize;
@@ -166,6 +168,11 @@ fn run_handles(driver: DriverType, depth: usize, ch: &mut Chooser, log: &mut Vec
                 menu.push((2, i));
                 if ops.iter().filter(|o| o.state == 0).count() < 2 {
                     menu.push((3, i));
+                    // (polling driver only: there every step of an operation happens inside a
+                    // harness step; io_uring runs splice on its worker pool, whose timing nobody owns)
+                    if driver == DriverType::Poll {
+                        menu.push((10, i));
+                    }
                 }
                 if closes.len() < 2 {
                     menu.push((6, i));
@@ -196,12 +203,30 @@ fn run_handles(driver: DriverType, depth: usize, ch: &mut Chooser, log: &mut Vec
                 rt.enter(|| drop(handles[arg].take()));
                 log.push(format!("drop-handle({arg})"));
             }
-            3 => {
+            3 | 10 => {
                 let s = handles[arg].as_ref().unwrap().clone();
-                let mut fut: BoxFut<BufResult<usize, Vec<u8>>> = Box::pin(async move {
-                    let mut s = s;
-                    s.read(Vec::with_capacity(4)).await
-                });
+                let mut fut: BoxFut<BufResult<usize, Vec<u8>>> = if op == 3 {
+                    Box::pin(async move {
+                        let mut s = s;
+                        s.read(Vec::with_capacity(4)).await
+                    })
+                } else {
+                    // an operation that holds TWO descriptors: the stream (input) and a pipe (output)
+                    if pipe.is_none() {
+                        let mut fds = [0 as RawFd; 2];
+                        assert_eq!(unsafe { libc::pipe2(fds.as_mut_ptr(), libc::O_NONBLOCK | libc::O_CLOEXEC) }, 0);
+                        use std::os::fd::FromRawFd;
+                        let rx = unsafe { std::os::fd::OwnedFd::from_raw_fd(fds[0]) };
+                        let tx = rt.enter(|| unsafe { compio_fs::File::from_raw_fd(fds[1]) });
+                        pipe = Some((rx, tx));
+                    }
+                    let tx = pipe.as_ref().unwrap().1.clone();
+                    Box::pin(async move {
+                        let r = compio_fs::pipe::splice(&s, &tx, 4).await;
+                        BufResult(r, Vec::new())
+                    })
+                };
+                let opname = if op == 3 { "start-op" } else { "start-splice" };
                 let p = rt.enter(|| fut.as_mut().poll(&mut Context::from_waker(&noop)));
                 if let Poll::Ready(BufResult(r, _)) = p {
                     // unread bytes of earlier writes may be left in the stream (taken by nobody yet)
@@ -212,11 +237,11 @@ fn run_handles(driver: DriverType, depth: usize, ch: &mut Chooser, log: &mut Vec
                     consumed += r.unwrap_or(0);
                     rt.enter(|| drop(fut));
                     ops.push(OpSlot { fut: None, state: 2 });
-                    log.push(format!("start-op({arg})->completed-at-once"));
+                    log.push(format!("{opname}({arg})->completed-at-once"));
                     continue;
                 }
                 ops.push(OpSlot { fut: Some(fut), state: 0 });
-                log.push(format!("start-op({arg})"));
+                log.push(format!("{opname}({arg})"));
             }
             4 => {
                 peer.write_all(b"x").unwrap();
@@ -358,6 +383,7 @@ fn run_handles(driver: DriverType, depth: usize, ch: &mut Chooser, log: &mut Vec
             drop(o.fut.take());
         }
         handles.clear();
+        drop(pipe.take());
     });
     harvest(&rt);
     let unpolled_close_dropped = log.iter().any(|l| l.contains("unpolled")) || closes.iter().any(|c| !c.polled);
@@ -401,23 +427,57 @@ fn run_produced(driver: DriverType, kind: usize, ch: &mut Chooser, log: &mut Vec
     let mut peers: Vec<std::os::unix::net::UnixStream> = Vec::new();
     // steps: 0 stop, 1 submit (create + first poll), 2 make ready, 3 cancel (drop future), 4 harvest, 5 poll
     let mut fut: Option<BoxFut<Option<RawFd>>> = None;
+    // kind 2: the stream of incoming connections (multishot accept on io_uring). It borrows the
+    // listener: a leaked clone lives until the stream is gone.
+    type Inc = Pin<Box<dyn futures_util::Stream<Item = std::io::Result<compio_net::UnixStream>>>>;
+    let mut inc: Option<Inc> = None;
+    let inc_listener: &'static compio_net::UnixListener = Box::leak(Box::new(listener.clone()));
+    let steps = if kind == 2 { 6 } else { 5 };
     let mut submitted = false;
     let mut delivered: Vec<Box<dyn std::any::Any>> = Vec::new();
-    for _ in 0..5 {
+    for _ in 0..steps {
         let mut menu = vec![0u8, 4];
         if !submitted {
             menu.push(1);
         }
-        if kind == 0 && peers.len() < 2 {
+        if (kind == 0 && peers.len() < 2) || (kind == 2 && peers.len() < 3) {
             menu.push(2);
         }
-        if fut.is_some() {
+        if fut.is_some() || inc.is_some() {
             menu.push(3);
             menu.push(5);
         }
         let op = menu[ch.pick(menu.len())];
         match op {
             0 => break,
+            1 | 5 if kind == 2 => {
+                if op == 1 {
+                    submitted = true;
+                    inc = Some(Box::pin(inc_listener.incoming()));
+                }
+                let mut st = inc.take().unwrap();
+                let what = if op == 1 { "submit" } else { "poll" };
+                match rt.enter(|| st.as_mut().poll_next(&mut Context::from_waker(&noop))) {
+                    Poll::Ready(Some(Ok(s))) => {
+                        // delivered to the caller, who drops (closes) it
+                        log.push(format!("{what}->delivered connection"));
+                        rt.enter(|| drop(s));
+                        inc = Some(st);
+                    }
+                    Poll::Ready(Some(Err(_))) => {
+                        log.push(format!("{what}->error"));
+                        inc = Some(st);
+                    }
+                    Poll::Ready(None) => {
+                        log.push(format!("{what}->end"));
+                        rt.enter(|| drop(st));
+                    }
+                    Poll::Pending => {
+                        log.push(format!("{what}->Pending"));
+                        inc = Some(st);
+                    }
+                }
+            }
             1 | 5 => {
                 if op == 1 {
                     submitted = true;
@@ -449,7 +509,10 @@ fn run_produced(driver: DriverType, kind: usize, ch: &mut Chooser, log: &mut Vec
                 log.push("peer-connects".into());
             }
             3 => {
-                rt.enter(|| drop(fut.take()));
+                rt.enter(|| {
+                    drop(fut.take());
+                    drop(inc.take());
+                });
                 log.push("cancel".into());
             }
             _ => {
@@ -469,9 +532,14 @@ fn run_produced(driver: DriverType, kind: usize, ch: &mut Chooser, log: &mut Vec
             }
         }
     }
-    rt.enter(|| drop(fut.take()));
+    rt.enter(|| {
+        drop(fut.take());
+        drop(inc.take());
+    });
     harvest(&rt);
     drop(delivered.drain(..));
+    // the stream is gone: give the leaked listener clone back
+    rt.enter(|| drop(unsafe { Box::from_raw(inc_listener as *const compio_net::UnixListener as *mut compio_net::UnixListener) }));
     rt.enter(|| drop(listener));
     harvest(&rt);
     drop(rt);
@@ -483,7 +551,7 @@ fn run_produced(driver: DriverType, kind: usize, ch: &mut Chooser, log: &mut Vec
     let leaked: Vec<RawFd> = after.difference(&before).copied().collect();
     close_leaked(&leaked);
     if !leaked.is_empty() {
-        let what = if kind == 0 { "accept" } else { "open" };
+        let what = ["accept", "open", "incoming"][kind];
         return Err((format!("produced-descriptor-leaked:{what}"), format!("descriptors {leaked:?} still open after the {what} future, the listener and the runtime were dropped")));
     }
     Ok(format!("{}", log.len()))
@@ -497,10 +565,10 @@ fn shard(i: usize, n: usize, tier: Tier) {
     let mut task = 0usize;
     for driver in [DriverType::IoUring, DriverType::Poll] {
         let dname = format!("{driver:?}");
-        for family in 0..3usize {
-            // family 0 = handles, 1 = accept, 2 = open
-            // size of the first menu of each family (handles: stop/harvest/clone/drop/start-op/close; accept: 4; open: 3)
-            for first in 0..[6u32, 4, 3][family] {
+        for family in 0..4usize {
+            // family 0 = handles, 1 = accept, 2 = open, 3 = incoming (stream of connections)
+            // size of the first menu of each family (handles: stop/harvest/clone/drop/start-op/start-splice/close; accept: 4; open: 3; incoming: 4)
+            for first in 0..[if driver == DriverType::Poll { 7u32 } else { 6 }, 4, 3, 4][family] {
                 task += 1;
                 if task % n != i {
                     continue;
@@ -531,7 +599,7 @@ fn shard(i: usize, n: usize, tier: Tier) {
                             stats.2.insert(format!("{dname}|{family}|{sig}"));
                         }
                         Err((key, detail)) => {
-                            let fam = ["handles", "produced", "produced"][family];
+                            let fam = ["handles", "produced", "produced", "produced"][family];
                             let _ = writeln!(out.lock(), "{}", json!({"v": {"key": format!("{dname}:{fam}:{key}"), "what": format!("driver {dname} program {log:?}: {detail}"), "replay": {"engine": "e_c06", "family": family, "driver": dname, "choices": ch.choices(), "program": log}}}));
                         }
                     }
@@ -594,8 +662,8 @@ fn main() {
         }
     }
     rep.sample(1, || json!({"family": "handles", "example": ["clone(0)", "start-op(1)", "close-create(0)", "close-poll(0)->Pending", "cancel-op(0)", "drop-handle(1)", "harvest", "close-poll(0)->Ready"]}));
-    rep.extra("bounds", json!({"program_depth": args.tier.pick(5, 6), "handles_max": 3, "pending_ops_max": 2, "closers_max": 2, "produced": ["accept", "File::open"], "drivers": ["IoUring", "Poll"]}));
-    rep.rule("every program up to program_depth over {clone, drop-handle, start-op, complete-op, cancel-op, close-create, close-poll (fresh waker), close-drop, harvest} on a UnixStream, and every order of {submit, peer-connects, cancel, harvest, poll} for accept / File::open, on both drivers, each from a fresh runtime in a single-threaded worker process; descriptor accounting through /proc/self/fd");
+    rep.extra("bounds", json!({"program_depth": args.tier.pick(5, 6), "handles_max": 3, "pending_ops_max": 2, "closers_max": 2, "produced": ["accept", "File::open", "incoming (stream of connections, <= 3 peers, 6 steps)"], "two_descriptor_op": "splice(stream -> pipe)", "drivers": ["IoUring", "Poll"]}));
+    rep.rule("every program up to program_depth over {clone, drop-handle, start-op (read), start-splice (an operation holding two descriptors), complete-op, cancel-op, close-create, close-poll (fresh waker), close-drop, harvest} on a UnixStream, and every order of {submit, peer-connects, cancel, harvest, poll} for accept / File::open / the incoming() stream (several connections queued, some taken, stream dropped), on both drivers, each from a fresh runtime in a single-threaded worker process; descriptor accounting through /proc/self/fd");
     rep.assume("single-threaded worker process: descriptor numbers are deterministic and /proc/self/fd is exact");
     rep.finish();
 }
